@@ -40,7 +40,7 @@ w('//@                    && ((callret("func:generate.Generator.checkResources",
 w("//@   ensures [nocheck] r != nil && g.checkResources == nil ==> result == nil")
 # loops: 1 = hugepages, 2 = unified
 INV="cfg(g) != nil && cfg(g).Linux != nil && linuxKept(g)"
-w("//@   loop 1 modifies cfg(g).Linux.Resources, sres(g).HugepageLimits, elems(sres(g).HugepageLimits)")
+w(f"//@   loop 1 modifies cfg(g).Linux.Resources, sres(g).HugepageLimits, elems(sres(g).HugepageLimits), calls(\"{HP}\")")
 w(f"//@   loop 1 invariant 0 <= idx + 1 && idx + 1 <= len(r.HugepageLimits) && {INV} && cfg(g) == pre(cfg(g)) && cfg(g).Linux == pre(cfg(g).Linux)")
 w("//@   loop 1 invariant (pre(sres(g)) != nil ==> sres(g) == pre(sres(g))) && (pre(sres(g)) == nil && sres(g) != nil ==> prefresh(sres(g)) && zeroedexcept(sres(g), \"HugepageLimits\"))")
 w("//@   loop 1 invariant base(sres(g).HugepageLimits) == pre(base(sres(g).HugepageLimits)) || prefresh(sres(g).HugepageLimits)")
